@@ -39,4 +39,13 @@ func (env *Env) setupExt() error {
 
 func (env *Env) teardownExt() {}
 
-func (te *taskEnv) execExt(op *Op, rec *OpRec) bool { return false }
+func (te *taskEnv) execExt(op *Op, rec *OpRec) bool {
+	switch op.K {
+	case "sharedspec":
+		return true // consumed by setup
+	case "pairs":
+		te.execPairs(op, rec)
+		return true
+	}
+	return false
+}
